@@ -89,6 +89,12 @@ package majority
 //@   fnparam generator ensures 0.0 <= result && result < 1.0
 //@   ensures [one_draw_decides] result != nil && (result.current == current || result.current == another) && len(result.worseThanCurrent) == len(worseThanCurrent) + 1
 //@             && (forall k int :: 0 <= k && k < len(worseThanCurrent) ==> result.worseThanCurrent[k] == old(worseThanCurrent[k]))
+//@   ensures [either_policy_with_the_two_scores_of_this_comparison] (result.current == current && result.sameBuffer == sameBuffer && len(result.worseThanCurrent[len(worseThanCurrent)]) == 1
+//@                  && isRecord(result.worseThanCurrent[len(worseThanCurrent)][0], another, newEval, current.Id, currentEval))
+//@             || (result.current == another && len(result.sameBuffer) == 0 && len(result.worseThanCurrent[len(worseThanCurrent)]) == len(sameBuffer) + 1
+//@                  && (forall k int :: 0 <= k && k < len(sameBuffer) ==> result.worseThanCurrent[len(worseThanCurrent)][k] == old(sameBuffer[k]))
+//@                  && isRecord(result.worseThanCurrent[len(worseThanCurrent)][len(sameBuffer)], current, currentEval, another.Id, newEval))
+//@   ensures [the_draw_decides] old(draw(generator, calls(generator))) < 0.5 ? result.current == current : result.current == another
 
 
 // the configured draw policy, as an (abstract) function of what it is asked to resolve
@@ -221,7 +227,9 @@ package majority
 // ---- the tournament loop, one step at a time (C11, C01): the running winner meets the next alternative of the search order
 //@ func (*Majority).Evaluate
 //@   property C11 C01 C09
+//@   fnparam .generator pure
 //@   requires [parameters] typeis(dm.MethodParameters, MajorityHeuristicParams)
+//@   returnhint [generator_seeded_with_the_requests_seed] generator == appfn(m.generator, params.RandomSeed)
 //@   returnhint [policy_named_in_the_request] len(params.DrawResolution) == 0 ? drawResolver == m.drawResolvers[0]
 //@             : (exists k int :: 0 <= k && k < len(m.drawResolvers) && drawResolver == m.drawResolvers[k] && drawName(drawResolver) == params.DrawResolution)
 //@   loop 1 invariant [current_choice_of_the_request_goes_first] iter == 0 && len(params.CurrentChoice) > 0 ==> current.Id == params.CurrentChoice
